@@ -226,6 +226,12 @@ func CheckC17(c *Ctx) {
 		}
 		c.Extra["history_pairs_v"+v.Name] = pairs
 	}
+	// EXHAUSTIVE WALK: Vector() must perform exactly one allocation for EVERY configuration of the optional
+	// metrics. All configurations of one version are visited in reflected mixed-radix Gray order (one Set per
+	// step on a concrete object); allocations are counted per block of 32,768 Vector() calls -- the delta of
+	// MemStats.Mallocs must equal the number of calls. A block that shows more is re-walked (minimum of 3),
+	// and if the excess persists every call of the block is bracketed individually to name the configuration.
+	c17Walk(c)
 	for _, x := range []float64{0, 0.05, 0.1, 3.9, 4.0, 5.4, 7.0, 8.9, 9.0, 10.0, -0.1, 10.1, 1e300, -1e300} {
 		for _, op := range probe.RatingOps(x) {
 			op.Arg = fstr(x)
@@ -238,8 +244,195 @@ func CheckC17(c *Ctx) {
 	c.Extra["toolchain"] = runtime.Version()
 	c.Extra["calls_per_measurement"] = n
 	c.SetReport(Report{
-		Rule:        "steady-state heap allocations per call measured with runtime.MemStats.Mallocs around " + fmt.Sprint(n) + " calls after " + fmt.Sprint(warm) + " warm-up calls, GOMAXPROCS(1), GC off, concrete methods called directly, results kept alive in package-level sinks; minimum over up to 4 repetitions (stray runtime allocations only add). Budget: successful ParseVector <= 1, Vector() == 1, Get/Set on a known metric (legal and illegal values), every scoring method, Rating, Nomenclature == 0. Also measured with MemStats read between a PRECEDING call (each of ~40 valid/invalid vectors per version, every error kind) and the measured call, so that an allocation pushed onto the next call by an earlier one (pool buffer not returned on an error path) is seen. Inputs: no optional metric, all, every optional metric alone x every value (incl. all U spellings) x 2 base backgrounds, canonical and with every X/ND written explicitly, all-but-one, seeded random subsets/spellings (v3 shuffled). evaluations = measured calls; distinct = distinct input vectors",
+		Rule:        "steady-state heap allocations per call measured with runtime.MemStats.Mallocs around " + fmt.Sprint(n) + " calls after " + fmt.Sprint(warm) + " warm-up calls, GOMAXPROCS(1), GC off, concrete methods called directly, results kept alive in package-level sinks; minimum over up to 4 repetitions (stray runtime allocations only add). Budget: successful ParseVector <= 1, Vector() == 1, Get/Set on a known metric (legal and illegal values), every scoring method, Rating, Nomenclature == 0. Also measured with MemStats read between a PRECEDING call (each of ~40 valid/invalid vectors per version, every error kind) and the measured call, so that an allocation pushed onto the next call by an earlier one (pool buffer not returned on an error path) is seen. EXHAUSTIVE WALK for Vector(): every configuration of the optional metrics of v2.0 (192,000), and in thorough of v3.0/v3.1 (221,184,000 each) and of v4.0's threat+environmental metrics (1,179,648,000; supplemental seeded per chunk) -- quick: 1 chunk in 25 / 64 -- visited in Gray-code order on a concrete object, allocations counted per block of 32,768 calls (must equal the number of calls; excess re-walked, then bracketed per call). Inputs: no optional metric, all, every optional metric alone x every value (incl. all U spellings) x 2 base backgrounds, canonical and with every X/ND written explicitly, all-but-one, seeded random subsets/spellings (v3 shuffled). evaluations = measured calls; distinct = distinct input vectors",
 		Assumptions: []string{"a property of the compiled program: decided for the toolchain in this image (" + runtime.Version() + "), plain build (no -race: the race runtime makes sync.Pool drop Puts)"},
 	})
 	c.Finish()
+}
+
+type grayState struct {
+	dig, foc, dir []int
+}
+
+func (g *grayState) clone() *grayState {
+	return &grayState{append([]int{}, g.dig...), append([]int{}, g.foc...), append([]int{}, g.dir...)}
+}
+
+// next advances the reflected mixed-radix Gray code; returns the digit that moved, or -1 at the end.
+func (g *grayState) next(radix []int) int {
+	j := g.foc[0]
+	g.foc[0] = 0
+	if j == len(g.dig) {
+		return -1
+	}
+	g.dig[j] += g.dir[j]
+	if g.dig[j] == 0 || g.dig[j] == radix[j]-1 {
+		g.dir[j] = -g.dir[j]
+		g.foc[j] = g.foc[j+1]
+		g.foc[j+1] = j + 1
+	}
+	return j
+}
+
+func c17Walk(c *Ctx) {
+	const block = 32768
+	for vi, v := range spec.Versions {
+		var opt []int
+		for m, me := range v.Metrics {
+			if !me.Mandatory {
+				opt = append(opt, m)
+			}
+		}
+		// chunk prefix = the first pre optional metrics (fixed per chunk), the rest is Gray-walked
+		pre := 0
+		full := true
+		switch v.ID {
+		case spec.V30, spec.V31:
+			pre = 2 // E, RL : 25 chunks
+		case spec.V40:
+			pre = 4 // E CR IR AR : 256 chunks; supplemental metrics seeded per chunk, not enumerated
+		}
+		walkMetrics := opt[pre:]
+		if v.ID == spec.V40 {
+			walkMetrics = nil
+			for _, m := range opt[pre:] {
+				if v.Metrics[m].Group != spec.GSupp {
+					walkMetrics = append(walkMetrics, m)
+				}
+			}
+		}
+		nChunks := 1
+		for _, m := range opt[:pre] {
+			nChunks *= len(v.Metrics[m].Values)
+		}
+		stride := 1
+		if c.Quick {
+			switch v.ID {
+			case spec.V30, spec.V31:
+				stride = 25
+			case spec.V40:
+				stride = 64
+			}
+			full = stride == 1
+		}
+		radix := make([]int, len(walkMetrics))
+		for j, m := range walkMetrics {
+			radix[j] = len(v.Metrics[m].Values)
+		}
+		r := c.Rand("walk", v.Name)
+		off := r.Intn(stride)
+		var calls, excessBlocks, noisyBlocks int64
+		for ci := off; ci < nChunks; ci += stride {
+			a := gen.KSparseAssign(r, v, 0)
+			k := ci
+			for _, m := range opt[:pre] {
+				n := len(v.Metrics[m].Values)
+				a[m] = uint8(k % n)
+				k /= n
+			}
+			if v.ID == spec.V40 {
+				for mI, me := range v.Metrics {
+					if me.Group == spec.GSupp {
+						a[mI] = uint8(r.Intn(len(me.Values)))
+					}
+				}
+			}
+			wk, err := probe.NewWalker(vi, v.Canonical(a))
+			if err != nil {
+				c.Violate(Violation{Kind: "cannot-build-object", Version: v.Name, Steps: parseSteps(v.Canonical(a)), Expected: "accepted", Observed: err.Error()})
+				break
+			}
+			g := &grayState{make([]int, len(radix)), make([]int, len(radix)+1), make([]int, len(radix))}
+			for j := range g.foc {
+				g.foc[j] = j
+			}
+			for j := range g.dir {
+				g.dir[j] = 1
+			}
+			done := false
+			for !done {
+				// one block, measured; state saved for re-walks
+				g0, w0 := g.clone(), wk.Copy()
+				walkBlock := func(g *grayState, wk *probe.Walker, each func(i int)) (n int, end bool) {
+					for n < block {
+						if each != nil {
+							each(n)
+						} else {
+							wk.Vector()
+						}
+						n++
+						j := g.next(radix)
+						if j < 0 {
+							return n, true
+						}
+						m := walkMetrics[j]
+						wk.Set(v.Metrics[m].Abv, v.Metrics[m].Values[g.dig[j]])
+					}
+					return n, false
+				}
+				before := probe.Mallocs()
+				n, end := walkBlock(g, wk, nil)
+				delta := int64(probe.Mallocs()-before) - int64(n)
+				done = end
+				calls += int64(n)
+				if delta != 0 {
+					noisyBlocks++
+					// re-walk from the saved state: stray runtime allocations only add, a real one repeats
+					best := delta
+					for try := 0; try < 3 && best != 0; try++ {
+						gg, ww := g0.clone(), w0.Copy()
+						b := probe.Mallocs()
+						nn, _ := walkBlock(gg, ww, nil)
+						if d := int64(probe.Mallocs()-b) - int64(nn); (d >= 0 && d < best) || (best < 0 && d > best) {
+							best = d
+						}
+					}
+					if best != 0 {
+						excessBlocks++
+						// name the configuration(s): bracket every call of the block
+						gg, ww := g0.clone(), w0.Copy()
+						found := 0
+						walkBlock(gg, ww, func(i int) {
+							if found >= 3 {
+								ww.Vector()
+								return
+							}
+							m0 := 99.0
+							for t := 0; t < 3 && m0 != 1; t++ {
+								b := probe.Mallocs()
+								ww.Vector()
+								if d := float64(probe.Mallocs() - b); d < m0 {
+									m0 = d
+								}
+							}
+							if m0 != 1 {
+								found++
+								bcfg := a.Clone()
+								for j, m := range walkMetrics {
+									bcfg[m] = uint8(gg.dig[j])
+								}
+								c.Violate(Violation{Kind: "allocation-budget-exceeded", Version: v.Name, Steps: append(parseSteps(v.Canonical(bcfg)), Step{Op: "vector"}),
+									Expected: "Vector(): exactly 1 heap allocation for " + v.Canonical(bcfg), Observed: fmt.Sprintf("%.0f (exhaustive walk, block excess %d over %d calls)", m0, best, n), Detail: map[string]any{"op": "Vector", "workload": "exhaustive-walk"}})
+							}
+						})
+						if found == 0 {
+							c.Violate(Violation{Kind: "allocation-budget-exceeded", Version: v.Name, Steps: parseSteps(v.Canonical(a)), Expected: fmt.Sprintf("%d Vector() calls = %d allocations", n, n), Observed: fmt.Sprintf("excess %d (minimum of 4 walks of the block), configuration not isolated", best), Detail: map[string]any{"op": "Vector", "workload": "exhaustive-walk"}})
+						}
+					}
+				}
+				if c.nviolA.Load() > 20 {
+					done = true
+				}
+			}
+			if c.nviolA.Load() > 20 {
+				break
+			}
+		}
+		c.Evals += calls
+		c.Acc[62] += calls
+		c.Extra["exhaustive_walk_vector_calls_v"+v.Name] = calls
+		c.Extra["exhaustive_walk_complete_v"+v.Name] = full
+		c.Extra["exhaustive_walk_blocks_with_confirmed_excess_v"+v.Name] = excessBlocks
+		c.Extra["exhaustive_walk_blocks_rewalked_v"+v.Name] = noisyBlocks
+	}
 }
